@@ -14,7 +14,8 @@ mutual
 def exprOf (fnames : List Bytes) : Nat → Rich → Option Expr
   | 0, _ => none
   | _+1, .nil => some (.lit Val.nil)
-  | _+1, .int i => some (.lit (.atom (Bytes.ofInt i)))
+  -- in non-strict dialects an integer whose bytes spell `@` is the environment reference: not core
+  | _+1, .int i => if Bytes.ofInt i == [64] then none else some (.lit (.atom (Bytes.ofInt i)))
   | _+1, .qstr _ b => some (.lit (.atom b))
   | _+1, .atom name => if name.isEmpty then some (.lit Val.nil) else some (.var name)
   | n+1, .cons (.atom h) tl =>
